@@ -39,8 +39,8 @@ class Draws:
        mode 'lattice': values on the dyadic lattice inside [low, high] from a seeded PRNG (ends included);
        mode 'real': NumPy's own generator after np.random.seed(seed), recorded."""
 
-    def __init__(self, mode, rng=None, script=None, seed=0):
-        self.mode, self.rng, self.script, self.seed = mode, rng, list(script or []), seed
+    def __init__(self, mode, rng=None, script=None, seed=0, step=U):
+        self.mode, self.rng, self.script, self.seed, self.step = mode, rng, list(script or []), seed, step
         self.log = []        # ("u", lo, hi, [ticks]) | ("p", [perm])
         self.bad = None
 
@@ -68,9 +68,9 @@ class Draws:
             if self.mode == "script":
                 v = self.script.pop(0)
             else:
-                k = (hi - lo) // U
+                k = (hi - lo) // self.step
                 r = self.rng.random()
-                v = lo if r < 0.1 else (hi if r < 0.2 else lo + self.rng.randint(0, max(k, 0)) * U)
+                v = lo if r < 0.1 else (hi if r < 0.2 else lo + self.rng.randint(0, max(k, 0)) * self.step)
             if not lo <= v <= hi:
                 self.bad = "scripted draw %d outside [%d, %d]" % (v, lo, hi)
             vals.append(v)
@@ -403,7 +403,8 @@ def run(res, tier, seed):
                 "lattice steps, keep_tsupport both ways (J = 2: seeded subsample in quick); every resample vector in [first, last]^n; every permutation of the intervals. "
                 "(B) TsGroup: seeded random groups of 1..4 members (empty / single-stamp / duplicate members) with lattice draws. (C) larger random Ts/TsGroup, n <= 40, lattice draws. "
                 "(D) NumPy's real generator, seeded, 200 (quick) / 5000 (thorough) seeds x 4 generators x Ts/TsGroup, statement oracle only. (E) shuffle on ns-resolution stamps. "
-                "Every (A)(B)(C)(E) case is also compared with the extracted Coq model fed the recorded draws. non-trivial = the draw changes the series (result != input)")
+                "(F) shift/jitter/resample with ns-resolution stamps and draws (a shift landing exactly on a multiple of the support length may come out as end instead of start: float_ambiguous). "
+                "Every (A)(B)(C)(E)(F) case is also compared with the extracted Coq model fed the recorded draws. non-trivial = the draw changes the series (result != input)")
     res.exhaustive = True
     lines, pending = [], []
 
@@ -512,7 +513,53 @@ def run(res, tier, seed):
                 pending.append(("TsGroup", inp, r))
         res.count("E:shuffle_ns")
 
-    # model comparison for (A)(B)(C)(E)
+    # (F) shift / jitter / resample on ns-resolution stamps and draws (decimal, not dyadic): t + d, the sort, the rounding to
+    #     1e-9 and the restriction are exact on ticks; only a shift landing exactly on a multiple of the support length may come
+    #     out as `end` instead of `start` (float %), counted as float_ambiguous
+    rng = random.Random(seed * 37 + 4)
+    for n in range(600 if tier == "quick" else 8000):
+        o = rng.choice(ORIGINS)
+        span = rng.choice([2000, 10 ** 6, 10 ** 9])
+        s, e = o, o + span
+
+        def mkns(nmax):
+            t = []
+            for _ in range(rng.randint(1, nmax)):
+                r = rng.random()
+                t.append(rng.choice(t) if t and r < 0.2 else (o + rng.choice([0, span]) if r < 0.3 else o + rng.randint(0, span)))
+            return sorted(t)
+        op = rng.choice(OPS[:3])
+        if op == "shift_timestamps":
+            a = rng.choice([0, 0, rng.randint(-span, span)])
+            p = rng.choice([{"min": 0, "max": None}, {"min": a, "max": a + rng.randint(0, 2 * span)}])
+        elif op == "jitter_timestamps":
+            p = {"J": rng.choice([1, 500, 1000, 1001, span // 3]), "keep": rng.random() < 0.5}
+        else:
+            p = {}
+        dr = Draws("lattice", rng=random.Random(seed * 41 + n), step=1)
+        if rng.random() < 0.6:
+            ts = mkns(12)
+            r = run_ts(nap, op, ts, s, e, p, dr)
+            draws = dr.flat()
+            inp = {"kind": "Ts", "op": op, "ts": ts, "support": [s, e], "params": p, "draws": draws, "resolution": "ns"}
+            res.case(("F", n), nontrivial=r[0] == "ok" and r[1] != ts)
+            record(res, judge_ts(op, ts, s, e, p, r), inp)
+            lines.append(line_ts(op, ts, s, e, p, draws))
+            pending.append(("Ts", inp, r))
+        else:
+            keys = sorted(rng.sample(range(0, 20), rng.randint(1, 4)))
+            tss = [mkns(6) for _ in keys]
+            r = run_group(nap, op, keys, tss, s, e, p, dr)
+            draws = dr.flat()
+            inp = {"kind": "TsGroup", "op": op, "keys": keys, "tss": tss, "support": [s, e], "params": p, "draws": draws, "resolution": "ns"}
+            res.case(("F", n), nontrivial=r[0] == "ok" and r[2] != tss)
+            record(res, judge_group(op, keys, tss, s, e, p, r, draws), inp)
+            if len(draws) == len(tss):
+                lines.append(line_group(op, keys, tss, s, e, p, draws))
+                pending.append(("TsGroup", inp, r))
+        res.count("F:" + op + "_ns")
+
+    # model comparison for (A)(B)(C)(E)(F)
     outm = C.run_model(lines, driver="driver_c20")
     for (kind, inp, r), om in zip(pending, outm):
         if om.startswith("ERR"):
@@ -524,6 +571,23 @@ def run(res, tier, seed):
         else:
             m = parse_model_group(om)
             same = (r[0] == "exc" and m[0] == "exc") or (r[0] == "ok" and m[0] == "ok" and r[1] == m[1] and r[2] == m[2] and r[3] == m[3])
+        if not same and inp.get("resolution") == "ns" and inp["op"] == "shift_timestamps" and r[0] == "ok" and m[0] == "ok":
+            s_, e_ = inp["support"]
+
+            def fold(l):
+                return sorted(s_ if x == e_ else x for x in l)
+            L_ = e_ - s_
+            members = [inp["ts"]] if kind == "Ts" else inp["tss"]
+            coincide = any((t - s_ + d[0]) % L_ == 0 for tsm, d in zip(members, inp["draws"]) for t in tsm)
+            if not coincide:
+                res.disagreements.append({"op": inp["op"], "kind": kind, "input": inp, "impl": r[:4], "model": m})
+                continue
+            if kind == "Ts" and fold(r[1]) == fold(m[1]) and list(r[2]) == m[2]:
+                res.float_ambiguous += 1
+                continue
+            if kind == "TsGroup" and r[1] == m[1] and [fold(x) for x in r[2]] == [fold(x) for x in m[2]] and r[3] == m[3]:
+                res.float_ambiguous += 1
+                continue
         if not same:
             res.disagreements.append({"op": inp["op"], "kind": kind, "input": inp, "impl": r[:4], "model": m})
     res.traces = len(pending)
